@@ -213,6 +213,26 @@ Theorem C34_orthogonal_basis_normalized : forall x y z : R, 0 < x * x + y * y + 
 Proof. exact orthogonal_basis_normalized. Qed.
 Print Assumptions C34_orthogonal_basis_normalized.
 
+(* the hfield mesh of the BVH path: merging a rectangle of cells that all pass fits_plane (planar, corner on the
+   start plane, SAME slopes; hand model with exact arithmetic of the host function bvh._optimize_hfield_mesh,
+   tied by the mesh-exactness obligation of the check) is exact -- every grid node of the rectangle lies on the
+   quad's plane -- and the slope test cannot be dropped (flat cell + ramp cell witness) *)
+Theorem C34_hfield_merge_exact : forall (z : Z -> Z -> R) (r c h w : Z) (sx sy : R),
+  (1 <= h)%Z -> (1 <= w)%Z ->
+  (forall rr cc, (r <= rr < r + h)%Z -> (c <= cc < c + w)%Z -> cell_fits z r c sx sy rr cc) ->
+  forall rr cc, (r <= rr <= r + h)%Z -> (c <= cc <= c + w)%Z -> z rr cc = hf_plane z r c sx sy rr cc.
+Proof. exact hfield_merge_exact. Qed.
+Print Assumptions C34_hfield_merge_exact.
+
+Theorem C34_hfield_merge_needs_slope_test :
+  exists (z : Z -> Z -> R),
+    let sx := z 0%Z 1%Z - z 0%Z 0%Z in let sy := z 1%Z 0%Z - z 0%Z 0%Z in
+    cell_fits z 0 0 sx sy 0 0 /\
+    (z 0%Z 1%Z + z 1%Z 2%Z = z 0%Z 2%Z + z 1%Z 1%Z /\ z 0%Z 1%Z = hf_plane z 0 0 sx sy 0 1) /\
+    z 0%Z 2%Z <> hf_plane z 0 0 sx sy 0 2.
+Proof. exact hfield_merge_needs_slope_test. Qed.
+Print Assumptions C34_hfield_merge_needs_slope_test.
+
 (* bvh_equals_brute_partial.  Abstract BVH (binary tree, one geom per leaf, a box per node; `entry`
    = distance at which the ray enters a box, None = missed).  If the traversal skips a subtree only
    when its box is missed or entered no nearer than the current best (prune_sound), and every box is
